@@ -2,15 +2,17 @@ import Dawgs.Model.C01S2
 /-
 C01 — stage S2c of the model translator: CHAINS OF TWO OR THREE DIRECTED FIXED HOPS
 
-  MATCH (n0[:K…])-[e0[:T|…]]->(n1[:K…])-[e1[:T|…]]->(n2[:K…]) [-[e2[:T|…]]->(n3[:K…])] RETURN items
-      items ::= x | id(x) | x.k  [AS alias]      (x one of the pattern variables; every variable is read; no WHERE)
+  MATCH (n0[:K…])-[e0[:T|…]]->(n1[:K…])-[e1[:T|…]]->(n2[:K…]) [-[e2[:T|…]]->(n3[:K…])] [WHERE c1 AND … AND cn] RETURN items
+      items ::= x | id(x) | x.k  [AS alias]      (x one of the pattern variables; every variable is read by an item)
+      ci    ::= an S1 predicate over exactly ONE pattern variable
 
 `Ch.Query.trWith` is the statement the real translator emits (tie 1 compares on every run): frame `s0` is the hop frame of stage S2 for
 the first step (either join order), every further step i adds a frame
   s_i as (select s_{i-1}.e0 as e0, …, (e_i.*)::edgecomposite as e_i, s_{i-1}.n0 as n0, …, (n_{i+1}.*)::nodecomposite as n_{i+1}
           from s_{i-1} join edge e_i on (s_{i-1}.n_i).id = e_i.start_id join node n_{i+1} on [kinds and] n_{i+1}.id = e_i.end_id
-          where [e_i.kind_id = any (array […]) and] e_i.id != (s_{i-1}.e0).id [and e_i.id != (s_{i-1}.e1).id])
-— the `!=` guards are openCypher's relationship uniqueness within one MATCH.
+          where [(conjuncts over e_i) and] [e_i.kind_id = any (array […]) and] e_i.id != (s_{i-1}.e0).id [and e_i.id != (s_{i-1}.e1).id])
+— the `!=` guards are openCypher's relationship uniqueness within one MATCH. The WHERE conjuncts over n0, e0, n1 are emitted in frame s0 as in
+stage S2b; those over n_{i+1} in the ON condition of its join (before the kinds), those over e_i in the WHERE of frame s_i.
 -/
 namespace Dawgs.C01.Ch
 open Dawgs
@@ -47,6 +49,7 @@ structure Query where
   a : String
   akinds : List String
   hops : List Hop
+  wh : List (Ref × S1.Pred)       -- WHERE c1 AND … AND cn, every conjunct an S1 predicate over ONE pattern variable (`[]`: no WHERE)
   items : List Item
 deriving Repr, DecidableEq, Inhabited
 
@@ -60,10 +63,15 @@ def Query.name (q : Query) : Ref → String
 def Query.refs (q : Query) : List Ref :=
   (List.range (q.hops.length + 1)).map Ref.node ++ (List.range q.hops.length).map Ref.rel
 
-/-- two or three hops, all variable names distinct, every item reads a pattern variable and every pattern variable is read -/
+/-- two or three hops, all variable names distinct, every item reads a pattern variable and every pattern variable is read by an item; every
+WHERE conjunct is over a pattern variable and is not itself a conjunction -/
 def Query.wf (q : Query) : Bool :=
   (q.hops.length == 2 || q.hops.length == 3) && decide ((q.nodeNames ++ q.relNames).Nodup) &&
-  q.items.all (fun it => q.refs.contains it.ref) && q.refs.all (fun x => q.items.any (fun it => it.ref == x))
+  q.items.all (fun it => q.refs.contains it.ref) && q.refs.all (fun x => q.items.any (fun it => it.ref == x)) &&
+  q.wh.all (fun c => q.refs.contains c.1 && !S2.isAnd c.2)
+
+/-- the WHERE conjuncts that read `x`, in source order -/
+def Query.preds (q : Query) (x : Ref) : List S1.Pred := (q.wh.filter (fun c => c.1 == x)).map (·.2)
 
 -- ------------------------------------------------------------------ Cypher reading
 
@@ -72,10 +80,16 @@ def Item.toCy (q : Query) : Item → Cy.ProjItem
   | .idOf x al => ⟨.fn "id" false [.var (q.name x)], al⟩
   | .prop x k al => ⟨.prop (.var (q.name x)) k, al⟩
 
+def Query.whereCy (q : Query) : Option Cy.Expr :=
+  match q.wh with
+  | [] => none
+  | [c] => some (S1.Pred.toCy (q.name c.1) c.2)
+  | cs => some (.conj (cs.map (fun c => S1.Pred.toCy (q.name c.1) c.2)))
+
 def Query.toCy (q : Query) : Cy.Query :=
   { parts := []
     clauses := [.match false [.mk none false false (.mk (some q.a) q.akinds [])
-      (q.hops.map (fun h => (.mk (some h.r) h.rkinds .out none [], .mk (some h.n) h.nkinds [])))] none]
+      (q.hops.map (fun h => (.mk (some h.r) h.rkinds .out none [], .mk (some h.n) h.nkinds [])))] q.whereCy]
     ret := { distinct := false, all := false, items := q.items.map (Item.toCy q), orderBy := [], skip := none, limit := none } }
 
 -- ------------------------------------------------------------------ the emitted statement
@@ -98,24 +112,24 @@ def andRight : List Sql.Expr → Option Sql.Expr
   | [e] => some e
   | e :: es => (andRight es).map (fun r => .bin "and" e r)
 
-/-- `[n.kind_ids @> array[…] and] n.id = e.end_id` -/
-def joinOnE (n e : String) (kindIds : Option (List Nat)) : Sql.Expr :=
+/-- `[constraint and] n.id = e.end_id` — the constraint is `[(conjuncts over n) and] [n.kind_ids @> array[…]]` -/
+def joinOnE (n e : String) (c : Option Sql.Expr) : Sql.Expr :=
   let eq := Sql.Expr.bin "=" (S2.col n "id") (S2.col e "end_id")
-  match S2.nodeKindsE n kindIds with
+  match c with
   | none => eq
   | some c => .bin "and" c eq
 
 /-- frame `s_i` (i ≥ 1) of the chain: extends the `i`-edge frame `s_{i-1}` by relationship `e_i` and node `n_{i+1}` -/
-def stepFrame (i : Nat) (kr kn : Option (List Nat)) : Sql.Query :=
+def stepFrame (i : Nat) (kr kn : Option (List Nat)) (pr pn : Option Sql.Expr) : Sql.Query :=
   let s := sN (i - 1)
   let guards := (List.range i).map (guard s i)
   let kindsE : Option Sql.Expr := kr.map (fun ids => .bin "=" (S2.col (eN i) "kind_id") (.anyOf (S2.kindsLit ids)))
-  let wh : Option Sql.Expr := S2.both kindsE (andRight guards)
+  let wh : Option Sql.Expr := S2.both (S2.both pr kindsE) (andRight guards)
   Sql.Query.simple (.select false
     ((ecols i).map (carry s) ++ [edgeCompositeOf (eN i)] ++ (ncols i).map (carry s) ++ [S2.nodeCompositeOf (nN (i + 1))])
     [.mk (.table [s] none)
       [.mk .inner (.table ["edge"] (some (eN i))) (some (.bin "=" (.rowCol (S2.col s (nN i)) "id") (S2.col (eN i) "start_id"))),
-       .mk .inner (.table ["node"] (some (nN (i + 1)))) (some (joinOnE (nN (i + 1)) (eN i) kn))]]
+       .mk .inner (.table ["node"] (some (nN (i + 1)))) (some (joinOnE (nN (i + 1)) (eN i) (S2.both pn (S2.nodeKindsE (nN (i + 1)) kn))))]]
     wh [] none)
 
 def colOf : Ref → String
@@ -129,26 +143,33 @@ def Item.tr (q : Query) (s : String) : Item → Sql.Expr
   | .prop x k none => .bin "->" (.rowCol (S2.col s (colOf x)) "properties") (S1.strLit k)
   | .prop x k (some al) => .aliased (.bin "->" (.rowCol (S2.col s (colOf x)) "properties") (S1.strLit k)) (some al)
 
-/-- the hop frame `s0` of stage S2 for the first step (no WHERE conjuncts), in the join order given -/
-def frame0 (ka kr kb : Option (List Nat)) (flip : Bool) : Sql.Query :=
-  let ja : Sql.Join := .mk .inner (.table ["node"] (some "n0")) (some (S2.joinOn "n0" "start_id" ka))
-  let jb : Sql.Join := .mk .inner (.table ["node"] (some "n1")) (some (S2.joinOn "n1" "end_id" kb))
+/-- the hop frame `s0` of stage S2 for the first step (with the lowered conjuncts over n0, e0, n1), in the join order given -/
+def frame0 (ka kr kb : Option (List Nat)) (pa pr pb : Option Sql.Expr) (flip : Bool) : Sql.Query :=
+  let ja : Sql.Join := .mk .inner (.table ["node"] (some "n0")) (some (S2.joinOnC "n0" "start_id" (S2.both pa (S2.nodeKindsE "n0" ka))))
+  let jb : Sql.Join := .mk .inner (.table ["node"] (some "n1")) (some (S2.joinOnC "n1" "end_id" (S2.both pb (S2.nodeKindsE "n1" kb))))
   Sql.Query.simple (.select false [S2.edgeComposite, S2.nodeCompositeOf "n0", S2.nodeCompositeOf "n1"]
     [.mk (.table ["edge"] (some "e0")) (if flip then [jb, ja] else [ja, jb])]
-    (kr.map (fun ids => .bin "=" (S2.col "e0" "kind_id") (.anyOf (S2.kindsLit ids)))) [] none)
+    (S2.both pr (kr.map (fun ids => .bin "=" (S2.col "e0" "kind_id") (.anyOf (S2.kindsLit ids))))) [] none)
 
 def hopKinds (km : KindMap) (h : Hop) : Option (Option (List Nat) × Option (List Nat)) := do
   let kr ← S2.kindIds? km h.rkinds
   let kn ← S2.kindIds? km h.nkinds
   pure (kr, kn)
 
+/-- the lowered conjuncts over relationship `e_i` and node `n_{i+1}` -/
+def stepPreds (km : KindMap) (q : Query) (i : Nat) : Option (Option Sql.Expr × Option Sql.Expr) := do
+  let pr ← S2.predsE km (eN i) true (q.preds (.rel i))
+  let pn ← S2.predsE km (nN (i + 1)) false (q.preds (.node (i + 1)))
+  pure (pr, pn)
+
 /-- the frames `s1 …` for the hops after the first -/
-def stepCtes (km : KindMap) : Nat → List Hop → Option (List Sql.Cte)
+def stepCtes (km : KindMap) (q : Query) : Nat → List Hop → Option (List Sql.Cte)
   | _, [] => some []
   | i, h :: hs => do
     let (kr, kn) ← hopKinds km h
-    let rest ← stepCtes km (i + 1) hs
-    pure (.mk (sN i) none none (stepFrame i kr kn) :: rest)
+    let (pr, pn) ← stepPreds km q i
+    let rest ← stepCtes km q (i + 1) hs
+    pure (.mk (sN i) none none (stepFrame i kr kn pr pn) :: rest)
 
 def Query.trWith (km : KindMap) (q : Query) (flip : Bool) : Option Sql.Stmt :=
   if !q.wf then none else
@@ -157,8 +178,10 @@ def Query.trWith (km : KindMap) (q : Query) (flip : Bool) : Option Sql.Stmt :=
   | h0 :: hs => do
     let ka ← S2.kindIds? km q.akinds
     let (kr, kb) ← hopKinds km h0
-    let rest ← stepCtes km 1 hs
-    pure (.query (.mk false (.mk "s0" none none (frame0 ka kr kb flip) :: rest)
+    let pa ← S2.predsE km "n0" false (q.preds (.node 0))
+    let (pr, pb) ← stepPreds km q 0
+    let rest ← stepCtes km q 1 hs
+    pure (.query (.mk false (.mk "s0" none none (frame0 ka kr kb pa pr pb flip) :: rest)
       (.select false (q.items.map (Item.tr q (sN hs.length))) [.mk (.table [sN hs.length] none) []] none [] none) [] none none))
 
 end Dawgs.C01.Ch
@@ -182,15 +205,29 @@ def chHopOf : Cy.RelPat × Cy.NodePat → Option Ch.Hop
   | (.mk (some r) rkinds .out none [], .mk (some n) nkinds []) => some ⟨r, rkinds, n, nkinds⟩
   | _ => none
 
-/-- the S2c reading of a parsed query (a chain of two or three directed fixed hops, no WHERE), if it has one -/
+/-- one WHERE conjunct: an S1 predicate over exactly one pattern variable (the variables are tried in the order of `refs`; names are distinct) -/
+def chConjunctOf (q : Ch.Query) : List Ch.Ref → Cy.Expr → Option (Ch.Ref × S1.Pred)
+  | [], _ => none
+  | x :: xs, e =>
+    match predOf (q.name x) e with
+    | some p => some (x, p)
+    | none => chConjunctOf q xs e
+
+def whereOfCh (q : Ch.Query) : Option Cy.Expr → Option (List (Ch.Ref × S1.Pred))
+  | none => some []
+  | some (.conj es) => if es.length < 2 then none else es.mapM (chConjunctOf q q.refs)
+  | some e => (chConjunctOf q q.refs e).map (fun c => [c])
+
+/-- the S2c reading of a parsed query (a chain of two or three directed fixed hops, optional WHERE of single-variable conjuncts), if it has one -/
 def ofCyChain (q : Cy.Query) : Option Ch.Query :=
   match q.parts, q.clauses with
-  | [], [.match false [.mk none false false (.mk (some a) akinds []) steps] none] =>
+  | [], [.match false [.mk none false false (.mk (some a) akinds []) steps] wh] =>
     if q.ret.distinct || q.ret.all || !q.ret.orderBy.isEmpty || q.ret.skip.isSome || q.ret.limit.isSome then none else do
     let hops ← steps.mapM chHopOf
-    let q0 : Ch.Query := ⟨a, akinds, hops, []⟩
+    let q0 : Ch.Query := ⟨a, akinds, hops, [], []⟩
+    let cs ← whereOfCh q0 wh
     let items ← q.ret.items.mapM (chItemOf q0)
-    let s : Ch.Query := ⟨a, akinds, hops, items⟩
+    let s : Ch.Query := ⟨a, akinds, hops, cs, items⟩
     if s.wf then pure s else none
   | _, _ => none
 
